@@ -4,12 +4,16 @@
      <<profile, tokens, fatal with namespaces off, fatal with namespaces on, error class, phase, infoset>>
    infoset = the canonical event list of an accepted document (XmlTokens!Infoset, checked equal to the machine's
    output by invariant InfosetAgree), events <<kind, name, characters, attributes, flag, line>>.
+   For a case that ends at the first fatal error the tokens are the canonical COMPLETION of the prefix (open elements
+   closed, a root supplied), so that the violating token is the document's only defect (Agree says it is not well-formed);
+   a removed check is then not masked by "end of input inside an element".
    The harness renders the tokens to bytes and parses them under every API x scanner x namespace setting.
    The invariants of XmlTokens (Agree, AgreeNS) are checked in the same run, so every emitted verdict is one on
    which the machine and the grammar agree. *)
 EXTENDS XmlTokens, Json
 EmitT == (st'.fatal \/ st'.phase = "done")
-            => PrintT(ToJson(<<prof, toks', st'.fatal, st'.fatal \/ st'.nsfatal, st'.why, st'.phase,
+            => PrintT(ToJson(<<prof, IF st'.phase = "done" THEN toks' ELSE CompletionOf(toks', st'),
+                             st'.fatal, st'.fatal \/ st'.nsfatal, st'.why, st'.phase,
                              IF st'.fatal THEN <<>> ELSE st'.out>>))
 \* property C03 only needs the accepted documents (accepted at least with namespaces off)
 EmitOK == (st'.phase = "done" /\ ~st'.fatal)
